@@ -565,10 +565,10 @@ def run(ctx):
     else:
         Ns = [8, 16, 17, 64, 256]
         Gs = [0, 1, 3, 10, 20, 40]
-        NFs = [3, 5, 7, 10]
+        NFs = [3, 7, 10]
         FS = [16e9, 40e9, 160e9]
         BWs = [None, 0.1, 0.2]
-        conf_seeds = [1, 2, 3, 4, 5, 6, 7, 8]
+        conf_seeds = [1, 2, 3, 4]
         confN = 2 ** 17
     gvs = [(w, f) for w in WL for f in FS]
     ctx.rule(f'scripted: FULL product N{Ns} x layout{LAYOUTS} x noise-kind{NKINDS} x G{Gs} dB x NF{NFs} dB x wavelength{WL} x fs{FS} x BW/fs{BWs} '
@@ -594,7 +594,7 @@ def run(ctx):
     ctx.pmap('non-optical', case_bad, tcases, horizon=20)
 
     ccases = []
-    confG = [(3, 3), (20, 5), (40, 10)] if ctx.quick else [(1, 3), (3, 3), (3, 10), (20, 5), (40, 3), (40, 10)]
+    confG = [(3, 3), (20, 5), (40, 10)] if ctx.quick else [(1, 3), (3, 10), (20, 5), (40, 7)]
     for rs, (G, NF), (wl, fs), lay, nk in itertools.product(conf_seeds, confG, gvs, ['1pol', '2pol'], ['absent', 'complex']):
         ccases.append((confN, lay, nk, G, NF, wl, fs, seed, (seed * 1000003 + rs) % (2 ** 32)))
     ctx.pmap('conformance', case_conf, ccases, horizon=60)
